@@ -441,6 +441,8 @@ func TestVerif(t *testing.T) {
 		h = authHarness{}
 	case "C09":
 		h = raceHarness{}
+	case "C08T2":
+		h = t2authHarness{}
 	case "C03T2", "C01T2", "C02T2":
 		h = t2txHarness{prop: e.Prop}
 	default:
